@@ -137,11 +137,11 @@ class MicroBlazeArch(Architecture):
         arg_types = [a[0] for a in args]
         arg_locs = self.determine_arg_locations(arg_types)
 
-        arg_regs = {
+        arg_regs = [
             arg_loc
             for arg_loc in arg_locs
             if isinstance(arg_loc, registers.MicroBlazeRegister)
-        }
+        ]
         yield RegisterUseDef(defs=arg_regs)
 
         for arg_loc, arg2 in zip(arg_locs, args):
